@@ -259,7 +259,19 @@ def run(tier: str, seed: int) -> int:
     if nontrans != 18:
         pred_fail.append({'what': 'match_not_transitive_witness(count)', 'case': ['chan-triple-count', nontrans]})
 
-    # ---- 2. qubit identifiers: 17²
+    # ---- 2. qubit identifiers: 17² device names, plus near-miss spellings of a few of them (other case, a suffix, a leading zero:
+    #         names are arbitrary strings, "equal exactly when their names are" — seeded change C19-m4 canonicalised the name)
+    near = [n.lower() for n in names[:5]] + [n + 'x' for n in names[:3]] + [n[0] + '0' + n[1:] for n in names[:3]]
+    for x, y in [(u, v) for u in names[:5] + near for v in near] + [(v, u) for u in names[:5] for v in near]:
+        a, c = T.qubit(x), T.qubit(y)
+        add(f'ident qeq {x} {y}', b(a == c), {'kind': 'qubit-pair-near', 'a': x, 'b': y}, x != y)
+        dist['qubit-pair-near'] += 1
+        if (a == c) != (x == y) or ((a == c) and hash(a) != hash(c)) or ((c in {a}) != (x == y)):
+            pred_fail.append({'what': 'qubit_eq_iff_name', 'case': ['qubit', x, y]})
+    for x in names[:4]:               # spellings that cannot travel through the line protocol (blanks): predicate only
+        for y in (' ' + x, x + ' ', x + '\t', x.lower() + ' '):
+            if T.qubit(x) == T.qubit(y) or T.qubit(y) == T.qubit(x) or T.qubit(y) in {T.qubit(x)}:
+                pred_fail.append({'what': 'qubit_eq_iff_name', 'case': ['qubit', x, y]})
     for x, y in itertools.product(names, names):
         a, c = T.qubit(x), T.qubit(y)
         add(f'ident qeq {x} {y}', b(a == c), {'kind': 'qubit-pair', 'a': x, 'b': y}, x != y)
